@@ -47,8 +47,9 @@ def index_inv(S_has, parents: SMap, children: SMap, tag, witness):
     p, c, s = (z3.Const(fresh_name(tag + n), Ref) for n in "pcs")
     j = z3.Int(fresh_name(tag + "j"))
     par_p = SSeq(RT, parents.get_term(p))
+    tracked = z3.ForAll([p], z3.Implies(parents.has(p), z3.And(S_has(witness(p)), ANC(p, witness(p))))) if witness is not None else z3.ForAll([p], z3.Implies(parents.has(p), z3.Exists([s], z3.And(S_has(s), ANC(p, s)))))
     return [
-        ("tracked-are-ancestors-of-used", z3.ForAll([p], z3.Implies(parents.has(p), z3.And(S_has(witness(p)), ANC(p, witness(p)))))),
+        ("tracked-are-ancestors-of-used", tracked),
         ("ancestors-of-used-are-tracked", z3.ForAll([p, s], z3.Implies(z3.And(S_has(s), ANC(p, s)), parents.has(p)))),
         ("parents-entry-is-the-parent-path", z3.ForAll([p], z3.Implies(parents.has(p), z3.And(par_p.n == pp_len(p), z3.ForAll([j], z3.Implies(z3.And(0 <= j, j < pp_len(p)), par_p.at_term(j) == pp_at(p, j))))))),
         ("same-keys", z3.ForAll([p], children.has(p) == parents.has(p))),
@@ -143,7 +144,7 @@ class UpdatePC(FnSpec):
         a.removing = a.parents is None
         o = a.self
         a.parents0, a.children0, a.schemas0 = o.fields["_parents"].snapshot(), o.fields["_children"].snapshot(), o.fields["_schemas"].snapshot()
-        a.w0 = W0
+        a.w0 = None  # call sites prove the existential form (they may hold the invariant without a named witness)
         if not a.removing:
             ps = a.parents
             if not (isinstance(ps, SSeq) and z3.eq(z3.simplify(ps.t), z3.simplify(PP(a.schema_ref.t)))):
